@@ -146,6 +146,7 @@ impl Property for C13 {
         // (opcode, operands) -> id handed out for implicit type requests
         let mut implicit_requests: Vec<(MInst, u32)> = vec![];
         let mut pre_continue_probe: Option<u32> = None;
+        let mut shared_ids: Vec<u32> = vec![];
         if fresh != vec![1, 2, 3] {
             violation = viol("starts-at-one", "new-builder".into(), 0, format!("the first three ids of a new builder are {:?}", fresh));
         }
@@ -185,8 +186,14 @@ impl Property for C13 {
                 cov.triple(rep.kind as u32 * 8 + cls, rep.explicit_rid.is_some() as u32, rep.ret.is_err() as u32);
                 // explicit ids were taken from the builder right before the call: they are fresh ids too
                 if let Some(x) = rep.explicit_rid {
+                    if rep.explicit_reused {
+                        // the caller repeats an id that is already in use: from here on that id stands for more than
+                        // one declaration, so "different requests never share an id" cannot be asked of it
+                        shared_ids.push(x);
+                        cov.hit("reached.explicit_id_repeats_an_id_in_use");
+                    }
                     // (an id reserved by an earlier id() call was already checked when it was handed out)
-                    if d.all_ids[before_ids..].contains(&x) && !fresh.contains(&x) {
+                    if !rep.explicit_reused && d.all_ids[before_ids..].contains(&x) && !fresh.contains(&x) {
                         if let Some(v) = check_fresh(&mut fresh, x, step, "id() [explicit result id]") {
                             violation = Some(v);
                         }
@@ -292,7 +299,7 @@ impl Property for C13 {
                                 allocs += 1;
                             }
                             // different requests never share an id
-                            if let Some((other, _)) = implicit_requests.iter().find(|(k, id)| *id == ret_id && (k.opcode != key.opcode || k.ops != key.ops)) {
+                            if let Some((other, _)) = implicit_requests.iter().find(|(k, id)| *id == ret_id && !shared_ids.contains(id) && (k.opcode != key.opcode || k.ops != key.ops)) {
                                 violation = viol("distinct-requests-distinct-ids", format!("method={}", rep.binding.as_ref().unwrap().name), step, format!("{} returned id {} which was also returned for the different request [{}]", rep.what, ret_id, show(other)));
                                 break;
                             }
